@@ -16,8 +16,11 @@ except Exception:
     print(name, "TRY FAILED", r.stdout[-800:]); sys.exit(1)
 os.makedirs(dst, exist_ok=True)
 for f in ("patch.diff", "demo.rs"):
-    shutil.copy(os.path.join(d, f), os.path.join(dst, f))
+    if os.path.abspath(d) != os.path.abspath(dst):
+        shutil.copy(os.path.join(d, f), os.path.join(dst, f))
 meta = json.load(open(os.path.join(d, "meta.json")))
+if "agent_ran" in meta and "ran" not in meta:
+    meta["ran"] = meta["agent_ran"]
 meta_out = {
     "property": meta.get("property"), "summary": meta.get("summary"), "needs": meta.get("needs"), "files": meta.get("files"),
     "agent_ran": meta.get("ran"),
